@@ -21,11 +21,29 @@
     * stand-alone facts: `C04_posonly_short`, `C04_too_many`, `C04_positional`,
       `C04_vararg_always_mapped`, `C04_unexpected_keyword`, `C04_multiple_values`,
       `C04_keyword_binds`.
+
+  The substitution AS USED for inlining (`unbind_ir_with_call_swaps` = `Results.unbindIr`, one step
+  of `destructively_simplify_ir_call_tree` = `Results.foldChild`, the diagnostics of the fold =
+  `Pipeline.foldDiags`), second half of this file:
+    * `C04_unbind_pointwise`, `C04_unbind_bases`, `C04_unbind_simultaneous`, `C04_unbind_swap` — the
+      substitution is SIMULTANEOUS (one look-up per name; swapped parameters come out swapped);
+      `C04_cex_sequential_substitution` — applying the swaps one after another is another function;
+    * `C04_inline_step_exact` — exactly what one inlining step leaves in the caller;
+      `C04_inline_rooted` / `_positional` / `_keyword` / `_self` — `param.attr` of the callee arrives
+      as `argument.attr` (the implicit `self` of an initialiser: the FULL name of the target);
+    * `C04_step_diags`, `C04_step_rejected_diagnosed`, `C04_pipeline_rejected_diagnosed` — a call edge
+      Python rejects is diagnosed whatever the callee's IR holds (empty included), up to the
+      diagnostics of `Pipeline.run`;
+    * `C04_mkCall_self` — `Call.from_call(…, self=x)` puts `x` in front of the positionals;
+    * `C04_pipeline_test_module` — kernel evaluation of the whole pipeline model on one module.
 -/
 import RattrModel.Swaps
 import RattrModel.Spec.PyBind
 import RattrModel.Generated.C04
 import RattrProofs.Lemmas.Swaps
+import RattrModel.Results
+import RattrModel.Pipeline
+import RattrProofs.Lemmas.Pipeline
 
 namespace Rattr.C04
 open Rattr Rattr.Swaps
@@ -234,7 +252,7 @@ theorem C04_partial (si : StandIns α) (s : Spec.Sig α) (c : CallArgs α)
       | .ok st' =>
           Inv si s.iface filled (c.kwargs.foldl (kwStep si s.kwarg s.iface.all) (m0 si s c)) st' []
       | .error e => e ≠ .missingRequired ∧ e ≠ .tooManyPositional ∧
-          Diag (c.kwargs.foldl (kwStep si s.kwarg s.iface.all) (m0 si s c)) :=
+          SwapsLemmas.Diag (c.kwargs.foldl (kwStep si s.kwarg s.iface.all) (m0 si s c)) :=
     kw_loop si s.iface filled hn hfill c.kwargs _ _ I0 hk hclash
   rw [pyBind_eq s c hlen, construct_eq si s c hn hlen]
   have hf0 : filled0 s c = filled := h3
@@ -325,7 +343,7 @@ theorem C04_rejected_diagnosed (si : StandIns α) (s : Spec.Sig α) (c : CallArg
         | .ok st' =>
             InvW si s.iface (c.kwargs.foldl (kwStep si s.kwarg s.iface.all) (m0 si s c)) st'
         | .error e => e ≠ .missingRequired ∧ e ≠ .tooManyPositional ∧
-            Diag (c.kwargs.foldl (kwStep si s.kwarg s.iface.all) (m0 si s c)) :=
+            SwapsLemmas.Diag (c.kwargs.foldl (kwStep si s.kwarg s.iface.all) (m0 si s c)) :=
       kw_loopW si s.iface filled hn hfill c.kwargs _ _ I0
     rw [pyBind_eq s c hlen] at h
     rw [construct_eq si s c hn hlen]
@@ -418,7 +436,7 @@ theorem C04_partial_sharp (si : StandIns α) (s : Spec.Sig α) (c : CallArgs α)
       | .ok st' =>
           Inv si s.iface filled (c.kwargs.foldl (kwStep si s.kwarg s.iface.all) (m0 si s c)) st' []
       | .error e => e ≠ .missingRequired ∧ e ≠ .tooManyPositional ∧
-          Diag (c.kwargs.foldl (kwStep si s.kwarg s.iface.all) (m0 si s c)) :=
+          SwapsLemmas.Diag (c.kwargs.foldl (kwStep si s.kwarg s.iface.all) (m0 si s c)) :=
     kw_loopS si s.iface filled hn hfill c.kwargs _ _ I0 hk hclash hro
       (fun hg => absurd rfl hg) (fun _ => hself)
   rw [pyBind_eq s c hlen, construct_eq si s c hn hlen]
@@ -757,5 +775,453 @@ example :
     construct siN f c =
       ([(2, 50), (3, 53)], [SwapDiag.unexpectedKeywords [7], SwapDiag.byPositionAndName [2]]) := by
   decide
+
+
+/-! ## The substitution as it is USED for inlining
+
+`construct_call_swaps` only BUILDS the parameter ↦ argument map. What the property speaks of — "the
+parameter-to-argument substitution used for inlining" — is `unbind_ir_with_call_swaps` applied with
+that map to the callee's IR inside `destructively_simplify_ir_call_tree`, and the arity diagnostic
+reaches the user only if that loop calls `construct_call_swaps` for the edge. Model:
+`Results.unbindName / unbindList / unbindIr`, `Results.foldChild`, `Pipeline.childDiags / foldDiags`
+(correspondence: ops `unbind`, `pipeline`). -/
+
+section Inlining
+open Rattr.Results
+
+/-- the ONE-STEP image of a base name under the swaps: `swaps.get(basename, basename)` -/
+def image (sw : Dict Str Str) (b : Str) : Str := (Dict.get? sw b).getD b
+
+/-- a name rooted at the variable `p`: `p` itself (`s = ""`), `p.attr`, `p[]`, `p.a.b` … -/
+def rooted (p s : Str) : NameS := ⟨p ++ s, p⟩
+
+/-- a Python identifier as far as `unbind_name` cares: non-empty, no leading `*` -/
+def Plain (p : Str) : Prop := p ≠ [] ∧ p.head? ≠ some '*'
+
+instance (p : Str) : Decidable (Plain p) := by unfold Plain; infer_instance
+
+theorem unbindName_base {n n' : NameS} {nb : Str} (h : unbindName n nb = some n') : n'.base = nb := by
+  unfold unbindName at h
+  by_cases hb : n.base = nb
+  · rw [if_pos hb] at h; injection h with h; subst h; exact hb
+  · rw [if_neg hb] at h
+    simp only [] at h
+    split at h <;> split at h
+    all_goals first | (injection h with h; subst h; rfl) | cases h
+
+theorem unbindName_rooted (p s a : Str) (hp : Plain p) :
+    unbindName (rooted p s) a = some (rooted a s) := by
+  obtain ⟨hne, hst⟩ := hp
+  unfold unbindName rooted
+  by_cases hb : p = a
+  · subst hb; simp
+  · have hh : (p ++ s).head? ≠ some '*' := by
+      cases p with
+      | nil => exact absurd rfl hne
+      | cons c r => simpa using hst
+    have hpre : p.isPrefixOf (p ++ s) = true := by
+      rw [List.isPrefixOf_iff_prefix]; exact List.prefix_append p s
+    have hc : ¬ (List.head? p = some '*' ∨ p = [] ∧ List.head? s = some '*') := by
+      rintro (h | h)
+      · exact hst h
+      · exact hne h.1
+    simp [hb, hc]
+
+/-- `unbind_ir_with_call_swaps` is a POINTWISE map: the i-th output name is `unbind_name` of the
+i-th input name with the one-step image of ITS OWN base name — no output is looked up again. -/
+theorem C04_unbind_pointwise (sw : Dict Str Str) :
+    ∀ (l l' : List NameS), unbindList sw l = some l' →
+      l'.length = l.length ∧ ∀ q ∈ l.zip l', unbindName q.1 (image sw q.1.base) = some q.2
+  | [], l', h => by
+    simp only [unbindList, Option.some.injEq] at h; subst h; simp
+  | n :: r, l', h => by
+    simp only [unbindList] at h
+    cases hn : unbindName n ((Dict.get? sw n.base).getD n.base) with
+    | none => simp [hn] at h
+    | some n1 =>
+      cases hr : unbindList sw r with
+      | none => simp [hn, hr] at h
+      | some r1 =>
+        simp only [hn, hr, Option.some.injEq] at h
+        subst h
+        obtain ⟨h1, h2⟩ := C04_unbind_pointwise sw r r1 hr
+        refine ⟨by simp [h1], ?_⟩
+        intro q hq
+        simp only [List.zip_cons_cons, List.mem_cons] at hq
+        rcases hq with rfl | hq
+        · exact hn
+        · exact h2 q hq
+
+/-- the base names after the substitution are the one-step images of the base names before it
+(simultaneous substitution: an argument that is spelled like another parameter is NOT substituted
+again). -/
+theorem C04_unbind_bases (sw : Dict Str Str) :
+    ∀ (l l' : List NameS), unbindList sw l = some l' →
+      l'.map (·.base) = l.map (fun n => image sw n.base)
+  | [], l', h => by
+    simp only [unbindList, Option.some.injEq] at h; subst h; rfl
+  | n :: r, l', h => by
+    simp only [unbindList] at h
+    cases hn : unbindName n ((Dict.get? sw n.base).getD n.base) with
+    | none => simp [hn] at h
+    | some n1 =>
+      cases hr : unbindList sw r with
+      | none => simp [hn, hr] at h
+      | some r1 =>
+        simp only [hn, hr, Option.some.injEq] at h
+        subst h
+        simp only [List.map_cons, C04_unbind_bases sw r r1 hr, unbindName_base hn]
+        rfl
+
+/-- **closed form on parameter-rooted names**: every name `p ++ s` rooted at an identifier `p`
+becomes `image sw p ++ s`, all at once. -/
+theorem C04_unbind_simultaneous (sw : Dict Str Str) (ps : List (Str × Str))
+    (hp : ∀ q ∈ ps, Plain q.1) :
+    unbindList sw (ps.map fun q => rooted q.1 q.2)
+      = some (ps.map fun q => rooted (image sw q.1) q.2) := by
+  induction ps with
+  | nil => rfl
+  | cons q r ih =>
+    have h1 := unbindName_rooted q.1 q.2 (image sw q.1) (hp q (List.mem_cons_self))
+    have h2 := ih (fun x hx => hp x (List.mem_cons_of_mem _ hx))
+    simp only [List.map_cons, unbindList]
+    have hb : (rooted q.1 q.2).base = q.1 := rfl
+    rw [hb]
+    change (match unbindName (rooted q.1 q.2) (image sw q.1), _ with | some n', some r' => some (n' :: r') | _, _ => none) = _
+    rw [h1, h2]
+
+/-- swapping two parameters (`def f(a, b)`, call `f(b, a)`): what was rooted at `a` is rooted at
+`b` afterwards AND vice versa. -/
+theorem C04_unbind_swap (a b s t : Str) (hab : a ≠ b) (ha : Plain a) (hb : Plain b) :
+    unbindList [(a, b), (b, a)] [rooted a s, rooted b t] = some [rooted b s, rooted a t] := by
+  have := C04_unbind_simultaneous [(a, b), (b, a)] [(a, s), (b, t)]
+    (by intro q hq; simp at hq; rcases hq with h | h <;> subst h <;> assumption)
+  simpa [image, Dict.get?, hab] using this
+
+/-- NOT the model — the swaps applied one after another, each pass rewriting the whole list (the
+"only rebuild what is swapped" optimisation). -/
+def unbindSeq (sw : Dict Str Str) (l : List NameS) : Option (List NameS) :=
+  sw.foldl (fun acc kv => acc.bind (unbindList [kv])) (some l)
+
+/-- the sequential reading is a DIFFERENT function on arguments that are a permutation of the
+parameter names: `def f(a, b): a.x`, `f(b, a)` — simultaneous: `b.x`; sequential: back to `a.x`. -/
+theorem C04_cex_sequential_substitution :
+    unbindList [("a".toList, "b".toList), ("b".toList, "a".toList)] [⟨"a.x".toList, "a".toList⟩]
+      = some [⟨"b.x".toList, "b".toList⟩] ∧
+    unbindSeq [("a".toList, "b".toList), ("b".toList, "a".toList)] [⟨"a.x".toList, "a".toList⟩]
+      = some [⟨"a.x".toList, "a".toList⟩] := by
+  decide
+
+/-! ### one inlining step (`for child in node.children: … |= unbound`) -/
+
+/-- the swaps `destructively_simplify_ir_call_tree` computes for the edge `c` into the callee `g` -/
+abbrev swapsFor (P : Prog) (g : Key) (c : CallRec) : Dict Str Str :=
+  (Swaps.construct (si P) (fnAt P g).iface c.args).1
+
+/-- **exactly** what one inlining step leaves in the caller's entry: what was there, plus the
+pointwise one-step image of the callee's entry — nothing else, and nothing less. (`pk = ch.key`,
+direct recursion, included: the callee's entry is read BEFORE the caller's is written.) -/
+theorem C04_inline_step_exact (P : Prog) (pk : Key) (σ σ' : Store) (ch : Results.Node) (c : CallRec)
+    (he : ch.edgeIn = some c) (h : foldChild P pk σ ch = some σ') (k : Kind) (x : NameS) :
+    x ∈ (σ' pk).of k ↔
+      x ∈ (σ pk).of k ∨
+      ∃ n ∈ (σ ch.key).of k, unbindName n (image (swapsFor P ch.key c) n.base) = some x := by
+  unfold foldChild at h
+  simp only [he] at h
+  cases hu : unbindIr (Swaps.construct (si P) (fnAt P ch.key).iface c.args).1 (σ ch.key) with
+  | none => simp [hu] at h
+  | some u =>
+    simp only [hu, Option.some.injEq] at h
+    subst h
+    have hm := mem_unbindIr hu k x
+    simp only [Store.update, if_true]
+    cases k <;> simp only [IrSets.of] at hm ⊢ <;> rw [mem_union_iff, hm] <;> rfl
+
+/-- a name of the callee rooted at a parameter that the swaps map to `arg` arrives in the caller
+rooted at `arg`; a name rooted at a parameter the swaps do not mention arrives unchanged
+("parameters that receive no argument are left unmapped"). -/
+theorem C04_inline_rooted (P : Prog) (pk : Key) (σ σ' : Store) (ch : Results.Node) (c : CallRec)
+    (he : ch.edgeIn = some c) (h : foldChild P pk σ ch = some σ') (k : Kind) (p s : Str)
+    (hp : Plain p) (hmem : rooted p s ∈ (σ ch.key).of k) :
+    rooted (image (swapsFor P ch.key c) p) s ∈ (σ' pk).of k :=
+  (C04_inline_step_exact P pk σ σ' ch c he h k _).mpr
+    (Or.inr ⟨_, hmem, unbindName_rooted p s _ hp⟩)
+
+/-- … the i-th positional parameter: `param.attr` in the callee ⇒ `arg_i.attr` in the caller. -/
+theorem C04_inline_positional (P : Prog) (pk : Key) (σ σ' : Store) (ch : Results.Node) (c : CallRec)
+    (he : ch.edgeIn = some c) (h : foldChild P pk σ ch = some σ') (k : Kind) (s : Str)
+    (hn : (fnAt P ch.key).iface.all.Nodup)
+    (hlen : (fnAt P ch.key).iface.posonly.length ≤ c.args.args.length)
+    (pa : Str × Str)
+    (hpa : pa ∈ List.zip ((fnAt P ch.key).iface.posonly ++ (fnAt P ch.key).iface.args) c.args.args)
+    (hp : Plain pa.1) (hmem : rooted pa.1 s ∈ (σ ch.key).of k) :
+    rooted pa.2 s ∈ (σ' pk).of k := by
+  have := C04_inline_rooted P pk σ σ' ch c he h k pa.1 s hp hmem
+  have hg := C04_positional (si P) (fnAt P ch.key).iface c.args hn hlen pa hpa
+  simpa [image, swapsFor, hg] using this
+
+/-- … a keyword argument for a parameter not filled by position / a keyword-only parameter. -/
+theorem C04_inline_keyword (P : Prog) (pk : Key) (σ σ' : Store) (ch : Results.Node) (c : CallRec)
+    (he : ch.edgeIn = some c) (h : foldChild P pk σ ch = some σ') (k : Kind) (s : Str)
+    (hn : (fnAt P ch.key).iface.all.Nodup)
+    (hlen : (fnAt P ch.key).iface.posonly.length ≤ c.args.args.length)
+    (hk : (c.args.kwargs.map Prod.fst).Nodup) (kv : Str × Str) (hkv : kv ∈ c.args.kwargs)
+    (hopen : kv.1 ∈ (fnAt P ch.key).iface.args.drop (c.args.args.length - (fnAt P ch.key).iface.posonly.length)
+      ∨ kv.1 ∈ (fnAt P ch.key).iface.kwonly)
+    (hp : Plain kv.1) (hmem : rooted kv.1 s ∈ (σ ch.key).of k) :
+    rooted kv.2 s ∈ (σ' pk).of k := by
+  have := C04_inline_rooted P pk σ σ' ch c he h k kv.1 s hp hmem
+  have hg := C04_keyword_binds (si P) (fnAt P ch.key).iface c.args hn hlen hk kv hkv hopen
+  simpa [image, swapsFor, hg] using this
+
+/-- … the implicit `self` of an initialiser call: `CallArguments.from_call(call, self=target)` puts
+the assignment target in front of the positional arguments, so the FIRST positional parameter of
+`__init__` is bound to the target's FULL name: `o.field = Cls(…)` ⇒ `self.attr ↦ o.field.attr`. -/
+theorem C04_inline_self (P : Prog) (pk : Key) (σ σ' : Store) (ch : Results.Node) (c : CallRec)
+    (he : ch.edgeIn = some c) (h : foldChild P pk σ ch = some σ') (k : Kind) (s : Str)
+    (hn : (fnAt P ch.key).iface.all.Nodup)
+    (hlen : (fnAt P ch.key).iface.posonly.length ≤ c.args.args.length)
+    (self target : Str) (rest restArgs : List Str)
+    (hself : (fnAt P ch.key).iface.posonly ++ (fnAt P ch.key).iface.args = self :: rest)
+    (hargs : c.args.args = target :: restArgs)
+    (hp : Plain self) (hmem : rooted self s ∈ (σ ch.key).of k) :
+    rooted target s ∈ (σ' pk).of k := by
+  refine C04_inline_positional P pk σ σ' ch c he h k s hn hlen (self, target) ?_ hp hmem
+  rw [hself, hargs]; simp
+
+/-! ### the arity diagnostic of an inlining step does not look at the callee's IR -/
+
+open Rattr.Pipeline Rattr.FnA Rattr.FileA
+
+/-- the four templates of `construct_call_swaps` -/
+def isSwapsTemplate (t : Str) : Bool :=
+  t = "swaps-posonly-short".toList || t = "swaps-too-many-positional".toList ||
+  t = "swaps-unexpected-keywords".toList || t = "swaps-by-position-and-name".toList
+
+theorem swapDiag_error (fn : Str) (d : SwapDiag Str) :
+    (swapDiag fn d).lvl = .error ∧ isSwapsTemplate (swapDiag fn d).tmpl = true := by
+  cases d <;> exact ⟨rfl, by simp only [swapDiag, mkDiag]; decide⟩
+
+/-- the diagnostics of the step for child `ch` are those of `construct_call_swaps(callee, call)`,
+one for one — a function of the callee's INTERFACE and the call's arguments only (no store, no IR). -/
+theorem C04_step_diags (f : Facts) (imp : ImpFacts) (fir : FileIr) (P : Prog) (ch : Results.Node)
+    (c : CallRec) (he : ch.edgeIn = some c) :
+    ∃ fn, childDiags (diagCtx f imp fir P) ch
+      = ((Swaps.construct (si P) (fnAt P ch.key).iface c.args).2).map (swapDiag fn) := by
+  unfold childDiags
+  rw [he]
+  exact ⟨_, rfl⟩
+
+/-- **rejected ⇒ diagnosed, at the step**: a call edge Python rejects for an arity reason other than
+a missing argument yields an `error`-level `construct_call_swaps` diagnostic when the edge is
+folded — whatever the callee's entry holds (empty, stub, constant function, namedtuple …). -/
+theorem C04_step_rejected_diagnosed (f : Facts) (imp : ImpFacts) (fir : FileIr) (P : Prog)
+    (ch : Results.Node) (c : CallRec) (he : ch.edgeIn = some c)
+    (s : Spec.Sig Str) (hs : s.iface = (fnAt P ch.key).iface) (hn : s.iface.all.Nodup)
+    (e : Spec.BindErr) (hrej : Spec.pyBind s c.args = .error e) (hne : e ≠ .missingRequired) :
+    ∃ d ∈ childDiags (diagCtx f imp fir P) ch, d.lvl = .error ∧ isSwapsTemplate d.tmpl = true := by
+  obtain ⟨fn, hfn⟩ := C04_step_diags f imp fir P ch c he
+  have hd := C04_rejected_diagnosed (si P) s c.args hn e hrej hne
+  rw [hs] at hd
+  rw [hfn]
+  cases hl : (Swaps.construct (si P) (fnAt P ch.key).iface c.args).2 with
+  | nil => exact absurd hl hd
+  | cons d r =>
+    exact ⟨swapDiag fn d, by simp, swapDiag_error fn d⟩
+
+/-- every child of every node of a call tree contributes its step diagnostics to the fold -/
+theorem childDiags_sub_foldDiags (D : DiagCtx) (nodes : List Results.Node) (i : Nat)
+    (hi : i < nodes.length) (ch : Results.Node) (hch : ch ∈ childrenOf nodes i) :
+    ∀ d ∈ childDiags D ch, d ∈ foldDiags D nodes := by
+  intro d hd
+  unfold foldDiags
+  simp only [List.mem_flatMap, List.mem_reverse, List.mem_range]
+  exact ⟨i, hi, ch, hch, hd⟩
+
+/-- the diagnostics of a successful result generation contain the fold diagnostics of every root -/
+theorem foldDiags_sub_genLoop (P : Prog) (D : DiagCtx) :
+    ∀ (order : List Key) (σ : Store) (rs : List (Key × IrSets)) (σ' : Store) (ds : List Rattr.Diag),
+      genLoop P D order σ = .ok (rs, σ', ds) →
+      ∀ root ∈ order, ∀ nodes, callTree P root = some nodes → ∀ d ∈ foldDiags D nodes, d ∈ ds
+  | [], _, _, _, _, _ => by intro root hr; cases hr
+  | f :: r, σ, rs, σ', ds, h => by
+    simp only [genLoop] at h
+    cases hct : callTree P f with
+    | none => simp [hct] at h
+    | some nodes0 =>
+      simp only [hct] at h
+      cases htc : treeCrash P D nodes0 with
+      | some e => simp [htc] at h
+      | none =>
+        simp only [htc] at h
+        cases h1 : runRoot P σ f with
+        | outOfFuel => simp [h1] at h
+        | never => simp [h1] at h
+        | ok q =>
+          obtain ⟨res1, σ1⟩ := q
+          simp only [h1] at h
+          cases h2 : genLoop P D r σ1 with
+          | fatal a b => simp [h2] at h
+          | crash e => simp [h2] at h
+          | ok q2 =>
+            obtain ⟨rs2, σ2, ds2⟩ := q2
+            simp only [h2, Outcome.ok.injEq, Prod.mk.injEq] at h
+            obtain ⟨_, _, e3⟩ := h
+            subst e3
+            intro root hroot nodes hnodes d hd
+            rcases List.mem_cons.mp hroot with rfl | hroot
+            · rw [hct] at hnodes
+              injection hnodes with hnodes
+              subst hnodes
+              simp [hd]
+            · have := foldDiags_sub_genLoop P D r σ1 rs2 σ2 ds2 h2 root hroot nodes hnodes d hd
+              simp [this]
+
+/-- **rejected ⇒ diagnosed, through the whole pipeline model.** In a successful run of
+`python -m rattr -o results -f 0 file.py` (model `Pipeline.run`): for every analysed callable taken
+as a root, every edge of its call tree (a call resolved to a callee of the file — function, lambda,
+class initialiser, namedtuple) whose arguments Python rejects against the callee's signature for an
+arity reason other than a missing argument contributes an `error`-level `construct_call_swaps`
+diagnostic to the run's diagnostics. No hypothesis on the callee's body: an empty IR is checked like
+any other. -/
+theorem C04_pipeline_rejected_diagnosed {env : Env} {mn : Str} {f : Facts} {b : List Str}
+    {body : List Top} {imp : ImpFacts} {doc : ResultsDoc} {ds : List Rattr.Diag}
+    (h : run env mn f b body imp = .ok (doc, ds)) :
+    ∃ r s, RootCtx.compile f b body = .ok r ∧ FileA.analyseWith env mn f r.ctx body = .ok s ∧
+      ∀ root, root < s.ir.length → ∀ nodes, callTree (toProg id f imp s.ir) root = some nodes →
+      ∀ i, i < nodes.length → ∀ ch ∈ childrenOf nodes i, ∀ c, ch.edgeIn = some c →
+      ∀ sg : Spec.Sig Str, sg.iface = (fnAt (toProg id f imp s.ir) ch.key).iface → sg.iface.all.Nodup →
+      ∀ e, Spec.pyBind sg c.args = .error e → e ≠ .missingRequired →
+      ∃ d ∈ ds, d.lvl = .error ∧ isSwapsTemplate d.tmpl = true := by
+  unfold run runWith at h
+  cases hc : RootCtx.compile f b body with
+  | fatal r d => simp [hc] at h
+  | crash r e => simp [hc] at h
+  | ok r =>
+    simp only [hc] at h
+    cases hs : hasStarred r.ctx with
+    | true => simp [hs] at h
+    | false =>
+      simp only [hs, Bool.false_eq_true, if_false] at h
+      cases ha : FileA.analyseWith env mn f r.ctx body with
+      | fatal s d => simp [ha] at h
+      | crash s e => simp [ha] at h
+      | ok s =>
+        simp only [ha] at h
+        unfold results resultsStore at h
+        cases hg : genLoop (toProg id f imp s.ir) (diagCtx f imp s.ir (toProg id f imp s.ir))
+            (List.range s.ir.length) (toStore s.ir) with
+        | fatal a d => simp [hg] at h
+        | crash e => simp [hg] at h
+        | ok q =>
+          obtain ⟨rs, σ', ds3⟩ := q
+          simp only [hg, Outcome.ok.injEq, Prod.mk.injEq] at h
+          refine ⟨r, s, rfl, ha, ?_⟩
+          intro root hroot nodes hnodes i hi ch hch c he sg hsg hn e hrej hne
+          obtain ⟨d, hd, hlvl⟩ := C04_step_rejected_diagnosed f imp s.ir (toProg id f imp s.ir) ch c he
+            sg hsg hn e hrej hne
+          have h1 := childDiags_sub_foldDiags _ nodes i hi ch hch d hd
+          have h2 := foldDiags_sub_genLoop _ _ _ _ _ _ _ hg root (List.mem_range.mpr hroot) nodes hnodes d h1
+          refine ⟨d, ?_, hlvl⟩
+          rw [← h.2]
+          simp [h2]
+
+
+/-! ### kernel evaluation of the WHOLE pipeline model on a module with the three situations -/
+
+def envT : FnA.Env := { ctxEnv := { prims := [], literals := [] }, analysers := [] }
+
+def modT : List Top :=
+  [.funcDef "swap".toList ⟨[], ["a".toList, "b".toList], none, [], none⟩
+      [(.assign [(.attr (.name "a".toList .load) "first".toList .store)] .const), (.delete [(.attr (.name "b".toList .load) "second".toList .del)])]
+      [] false,
+   .funcDef "caller".toList ⟨[], ["a".toList, "b".toList], none, [], none⟩
+      [(.other "Expr".toList [(.call (.name "swap".toList .load) [(.name "b".toList .load), (.name "a".toList .load)] [] [])])]
+      [] false,
+   .funcDef "walk".toList ⟨[], ["a".toList, "b".toList], none, [], none⟩
+      [(.other "Expr".toList [(.attr (.name "a".toList .load) "left".toList .load)]), (.other "Expr".toList [(.call (.name "walk".toList .load) [(.name "b".toList .load), (.name "a".toList .load)] [] [])])]
+      [] false,
+   .classDef "Cls".toList []
+     [.funcDef "__init__".toList ⟨[], ["self".toList, "v".toList], none, [], none⟩
+      [(.assign [(.attr (.name "self".toList .load) "keep".toList .store)] (.attr (.name "v".toList .load) "src".toList .load))]
+      [] false]
+     [],
+   .funcDef "build".toList ⟨[], ["o".toList, "p".toList, "t".toList], none, [], none⟩
+      [(.assign [(.attr (.name "o".toList .load) "field".toList .store)] (.call (.name "Cls".toList .load) [(.name "p".toList .load)] [] [])), (.assign [(.sub (.name "t".toList .load) .const .store)] (.call (.name "Cls".toList .load) [(.name "o".toList .load)] [] []))]
+      [] false,
+   .funcDef "stub".toList ⟨[], ["a".toList, "b".toList], none, [], none⟩
+      [(.other "Pass".toList [])]
+      [] false,
+   .funcDef "bad".toList ⟨[], ["e".toList, "f".toList, "g".toList], none, [], none⟩
+      [(.other "Expr".toList [(.call (.name "stub".toList .load) [(.name "e".toList .load), (.name "f".toList .load), (.name "g".toList .load)] [] [])])]
+      [] false]
+
+
+def T' (x : String) : Str := x.toList
+
+/-- what `python -m rattr -o results -f 0 target.py` prints for that file, in FileIr order (checked
+against the real CLI) -/
+def docT : ResultsDoc :=
+  [(T' "swap", ⟨[], [T' "a.first"], [T' "b.second"], []⟩),
+   (T' "caller", ⟨[T' "a", T' "b"], [T' "b.first"], [T' "a.second"], [T' "swap()"]⟩),
+   (T' "walk", ⟨[T' "a", T' "a.left", T' "b", T' "b.left"], [], [], [T' "walk()"]⟩),
+   (T' "Cls", ⟨[T' "v.src"], [T' "self.keep"], [], []⟩),
+   (T' "build", ⟨[T' "o", T' "o.src", T' "p", T' "p.src"],
+      [T' "o.field", T' "o.field.keep", T' "t[]", T' "t[].keep"], [], [T' "Cls()"]⟩),
+   (T' "stub", ⟨[], [], [], []⟩),
+   (T' "bad", ⟨[T' "e", T' "f", T' "g"], [], [], [T' "stub()"]⟩)]
+
+def outcomeIs (o : FileA.Outcome (ResultsDoc × List Rattr.Diag)) (doc : ResultsDoc) (ds : List Rattr.Diag) : Bool :=
+  match o with
+  | .ok (d, s) => decide (d = doc) && decide (s = ds)
+  | _ => false
+
+theorem eq_of_outcomeIs {o : FileA.Outcome (ResultsDoc × List Rattr.Diag)} {doc : ResultsDoc} {ds : List Rattr.Diag}
+    (h : outcomeIs o doc ds = true) : o = .ok (doc, ds) := by
+  cases o with
+  | ok a =>
+    obtain ⟨d, s⟩ := a
+    simp only [outcomeIs, Bool.and_eq_true, decide_eq_true_eq] at h
+    rw [h.1, h.2]
+  | fatal a b => simp [outcomeIs] at h
+  | crash e => simp [outcomeIs] at h
+
+/-- TEST (kernel evaluation of the whole pipeline model, source → document + diagnostics):
+`swap(b, a)` exchanges the two parameters (`b.first`, `a.second`), the recursive flip `walk(b, a)`
+reports both `a.left` and `b.left`, `o.field = Cls(p)` / `t[0] = Cls(o)` bind the initialiser's
+`self` to the FULL target name (`o.field.keep`, `t[].keep`), and the call `stub(e, f, g)` of a
+callee with an EMPTY IR is diagnosed. -/
+theorem C04_pipeline_test_module :
+    run envT (T' "target") {} [] modT
+      = .ok (docT, [mkDiag .error "swaps-too-many-positional" (T' "stub")]) :=
+  eq_of_outcomeIs (by decide +kernel)
+
+/-- `Call.from_call(name, call, target, self=x)`: the implicit `self` is put IN FRONT of the
+positional arguments of the recorded call (`visit_ClassAssign` passes the full name of the
+assignment target, `visit_Call` `@<Class>`, `visit_ReturnValue` `@ReturnValue`). -/
+theorem C04_mkCall_self (s : St) (name : Str) (args : List Rattr.Node) (kwn : List (Option Str))
+    (kwv : List Rattr.Node) (target : Option Sym) (x : Str) (k : St → CallSym → Res) :
+    FnA.mkCall s name args kwn kwv target (some x) k =
+      FnA.argNames s args fun s as =>
+        FnA.kwargNames s kwn kwv fun s kws =>
+          k s { name := Strs.withoutCallBrackets name, args := x :: as, kwargs := kws, target := target } :=
+  rfl
+
+/-- hypotheses of `C04_unbind_swap` / `C04_inline_positional` are satisfiable (tests, kernel
+evaluation): `def swap(a, b): a.first = 1`, `def caller(a, b): swap(b, a)`. -/
+example :
+    Plain "a".toList ∧ Plain "b".toList ∧
+    (let P : Prog := { fns := [{ iface := ⟨[], ["a".toList, "b".toList], none, [], none⟩,
+                                  calls := [⟨0, "swap".toList, ⟨["b".toList, "a".toList], []⟩⟩] },
+                                { iface := ⟨[], ["a".toList, "b".toList], none, [], none⟩, calls := [] }],
+                        resolve := fun c => if c = 0 then some 1 else none }
+     let σ : Store := fun k => if k = 1 then ⟨[], [rooted "a".toList ".first".toList], []⟩ else IrSets.empty
+     let ch : Results.Node := { key := 1, edgeIn := some ⟨0, "swap".toList, ⟨["b".toList, "a".toList], []⟩⟩, parent := some 0 }
+     (fnAt P 1).iface.all.Nodup ∧
+     ("a".toList, "b".toList) ∈ List.zip ((fnAt P 1).iface.posonly ++ (fnAt P 1).iface.args) ["b".toList, "a".toList] ∧
+     (foldChild P 0 σ ch).map (fun σ' => (σ' 0).sets) = some [rooted "b".toList ".first".toList]) := by
+  decide
+
+end Inlining
 
 end Rattr.C04
